@@ -18,7 +18,7 @@ fn gen_atom(r: &mut Rng, depth: usize, out: &mut Vec<String>) {
         }
         out.push(")".to_string());
     } else {
-        let pool = ["true", "false", "0", "no", "NO", "False", "yes", "1", "x", "", " ", " false", "no ", " 0 ", "\tfalse", "fa lse", "00", "off", "FALSE"];
+        let pool = ["true", "false", "0", "no", "NO", "False", "yes", "1", "x", "", " ", " false", "no ", " 0 ", "\tfalse", "fa lse", "00", "off", "FALSE", "OR", "And", "AND", "Or", "oR", "aNd", "nO", "ors", "andy", "not"];
         out.push(r.pick(&pool).to_string());
     }
 }
@@ -112,15 +112,19 @@ pub fn run(input: &Value) -> Option<Value> {
         return None; // first token names a command: command form, outside this property's grammar
     }
     let line: Vec<String> = ts.iter().map(|t| render(t)).collect();
-    let script = format!("out = not {}\nif {}\n  via_if = set true\nelse\n  via_if = set false\nend\n", line.join(" "), line.join(" "));
+    let c = line.join(" ");
+    // all four consumers decide by the same evaluation: not, if, elseif, while
+    let script = format!("out = not {}\nif {}\n  via_if = set true\nelse\n  via_if = set false\nend\nif false\n  via_elseif = set skipped\nelseif {}\n  via_elseif = set true\nelse\n  via_elseif = set false\nend\nvia_while = set false\nwhile {}\n  via_while = set true\n  goto :wend\nend\n:wend\n", c, c, c, c);
     match runner::run_script(&script, context, None) {
         Ok(ctx) => {
             let got_not = ctx.variables.get("out").cloned();
             let got_if = ctx.variables.get("via_if").cloned();
             let exp_not = Some((!want).to_string());
             let exp_if = Some(want.to_string());
-            if got_not != exp_not || got_if != exp_if {
-                Some(json!({"script": script, "expected_value": want, "not_output": got_not, "if_branch": got_if}))
+            let got_elseif = ctx.variables.get("via_elseif").cloned();
+            let got_while = ctx.variables.get("via_while").cloned();
+            if got_not != exp_not || got_if != exp_if || got_elseif != exp_if || got_while != exp_if {
+                Some(json!({"script": script, "expected_value": want, "not_output": got_not, "if_branch": got_if, "elseif_branch": got_elseif, "while_entered": got_while}))
             } else {
                 None
             }
